@@ -16,8 +16,8 @@ MANIFEST = dict(
          "are attempted on the real controllers through verifhook gates in child processes on every run.",
     note="Trusted: Coq kernel+VM; harness transcription; gates at the two model-step boundaries. ports.Manager and vhost.Routers are "
          "modelled only as far as the groups use them (used set, allowed range, oracle for the port-0 choice, OS probe and net.Listen). "
-         "The select between closeCh and acceptCh in TCPGroupListener.Accept is modelled as 'a closed listener never receives' (residue). "
-         "Exercised through the exported controllers, not through a whole frps.",
+         "The lock structure of the six join/leave functions and the shape of Accept/Close are read from the source on every run "
+         "(translator unit c13locks) and checked reflectively. Exercised through the exported controllers and through a whole in-process frps.",
     technique="Coq proof (inductive invariant over schedules; vm_compute witnesses for refutations) + gate-driven differential correspondence",
     design="4/C13")
 
@@ -30,6 +30,12 @@ def recipe(c: Check):
     c.build(["Properties/C13.vo", "Corr/C13.vo"], harness=["c13"], units=["c13locks"])
     c.obligations("C13")
     st = c.run_driver("groups", q(c.tier, 240, 3000), shards=q(c.tier, 4, 16), timeout=1500)
+    st2 = c.run_driver("sysgroups", q(c.tier, 1, 6), shards=1, timeout=600)
+    ctr2 = c.cov.get("coq_counters", {}).get("sysgroups", {})
+    if st2 and ctr2:
+        for name in ("NSYSDELIVERED", "NSYSREFUSEDJOIN"):
+            if ctr2.get(name, 0) <= 0:
+                c.broken.append(dict(kind="coverage", name="counter %s is 0 in the whole-frps driver" % name, detail=str(ctr2)))
     ctr = c.cov.get("coq_counters", {}).get("groups", {})
     if st and ctr:
         # branches the property names must have been reached
@@ -55,8 +61,12 @@ def recipe(c: Check):
              "take/free of the port or route; (b) rotation histories; (c) gate-driven schedules (after_lookup, before_handoff) incl. the "
              "F-C13 shapes; each case replayed by Model.Group.run on the same request list and schedule; compared: per-thread outcome "
              "(join result + error kind + real port, receiver of each connection, refused/stranded), crash, controller table (name, "
-             "member count), used ports/routes, open endpoints, listeners whose Accept died. distinct = distinct case text; non-trivial "
-             "= at least 2 requests",
+             "member count), used ports/routes, open endpoints, listeners whose Accept died, total number of connections returned by "
+             "Accept calls; (d) choreographies through the group lock: a member closing while a connection waits at the hand-off "
+             "(select race in Accept, 18 rounds), a join started inside the last leave's critical section. sysgroups driver: whole "
+             "in-process frps + real in-process frpc clients with grouped tcp/http/tcpmux proxies and labelled backends (joins, wrong "
+             "key, other port, user connections, session drops, recreation with another key), replayed by the same model. distinct = "
+             "distinct case text; non-trivial = at least 2 requests",
         assumptions=["oracles (operation arguments): port chosen for remotePort=0, OS probe result, net.Listen result, receiver among blocked Accept calls",
-                     "select{closeCh, acceptCh} race in TCPGroupListener.Accept not modelled (a closed listener never receives)",
+                     "each group listener is closed at most once (BaseProxy.Close is the only caller); a second Close would panic on closeCh",
                      "ports.Manager reserved-port bookkeeping and vhost prefix/wildcard matching are outside this model (C09, C06)"])
